@@ -6,7 +6,7 @@ d = os.path.abspath(sys.argv[1])
 env = dict(os.environ, GOFLAGS="-mod=mod", GOPROXY="off")
 base = tempfile.mkdtemp(prefix="seedverify-", dir="/tmp"); wt = os.path.join(base, "repo")
 def run(cmd, **kw):
-    return subprocess.run(cmd, stdout=subprocess.PIPE, stderr=subprocess.STDOUT, text=True, env=env, **kw)
+    return subprocess.run(cmd, stdout=subprocess.PIPE, stderr=subprocess.STDOUT, text=True, errors="replace", env=env, **kw)
 subprocess.run(["git", "-C", "/repo", "worktree", "add", "-q", "--detach", wt, "HEAD"], check=True)
 res = {}
 try:
